@@ -94,6 +94,19 @@ func primTriangle2(rng *rand.Rand) *node2 {
 	d1, kind := orient2(rng)
 	b := a.Add(d1.Scale(m / d1.Norm()))
 	var c C2
+	if rng.Intn(6) == 0 {
+		// a degenerate triangle (third corner on the line through the other two, or repeated): still a
+		// Solid with a box; nothing off that line may be contained
+		c = lerp2(a, b, []float64{0, 0.5, 1, 2, rng.Float64()}[rng.Intn(5)])
+		perp := model2d.XY(-d1.Y, d1.X).Scale(m / d1.Norm())
+		ctr := a.Add(b).Add(c).Scale(1.0 / 3)
+		hints := []C2{ctr, lerp2(a, b, 0.3)}
+		for _, f := range []float64{1e-3, 0.1, 1, 50} {
+			hints = append(hints, lerp2(a, b, rng.Float64()).Add(perp.Scale(f)), lerp2(a, b, rng.Float64()).Sub(perp.Scale(f)))
+		}
+		return &node2{api: "model2d.Triangle[degenerate]", s: model2d.NewTriangle(a, b, c), hints: hints,
+			desc: fmt.Sprintf("Triangle{%s %s %s %s degenerate}", f2(a), f2(b), f2(c), kind)}
+	}
 	switch rng.Intn(4) {
 	case 0: // thin
 		c = lerp2(a, b, rng.Float64()).Add(model2d.XY(-d1.Y, d1.X).Scale(m * logUniform(rng, -6, -2) / d1.Norm()))
